@@ -273,9 +273,16 @@ def run(ctx, host=None):
     ok = True
     if len(inits) == 1:
         txt = norm(inits[0].value)
-        vnames = {x.attr for x in ast.walk(inits[0].value) if isinstance(x, ast.Attribute)} | {x.id for x in ast.walk(inits[0].value) if isinstance(x, ast.Name)}
-        consts = [x.value for x in ast.walk(inits[0].value) if isinstance(x, ast.Constant)]
-        if vnames <= {'self', '_current_pack_id'} and all(c == 0 for c in consts) and not any(isinstance(x, ast.Call) for x in ast.walk(inits[0].value)):
+        ival = inits[0].value
+        # a start value held in a local that is bound once (`first = self._current_pack_id or 0; pack_id = first`) is followed
+        for _ in range(2):
+            if isinstance(ival, ast.Name):
+                one = [n for n in assigns if isinstance(n, ast.Assign) and n.targets[0].id == ival.id]
+                if len(one) == 1 and not [n for n in assigns if isinstance(n, ast.AugAssign) and n.target.id == ival.id]:
+                    ival = one[0].value
+        vnames = {x.attr for x in ast.walk(ival) if isinstance(x, ast.Attribute)} | {x.id for x in ast.walk(ival) if isinstance(x, ast.Name)}
+        consts = [x.value for x in ast.walk(ival) if isinstance(x, ast.Constant)]
+        if vnames <= {'self', '_current_pack_id'} and all(c == 0 for c in consts) and not any(isinstance(x, ast.Call) for x in ast.walk(ival)):
             chk.ok(R2s, SELECT, norm(inits[0]), detail='search starts at the cached id or 0')
         else:
             ok = False
